@@ -303,3 +303,9 @@ Definition run_scenario (sc : scenario) (srv : server) (fs : list bool) : sresul
   | ScNormS t => norm_schema t srv fs
   | ScNormR r => norm_realm r srv fs
   end.
+
+(** two sessions one after the other on the same driver / connection: what the
+    second one sees is what the first one's RestoreFunc left (goal 2: the state
+    after a failed RestoreFunc) *)
+Definition run_twice (b1 b2 : list sstmt) (srv : server) (fs : list bool) : sresult * sresult :=
+  let r1 := run_sess b1 srv fs in (r1, run_sess b2 (r_srv r1) (r_fs r1)).
